@@ -1268,7 +1268,7 @@ def stream_fixture(db_t, add, cov):
         return
     node = db_t["node"]
     try:
-        rv = ref.ref_decode(node["fields"], blob)
+        rv = ref.ref_decode(node["fields"], blob, short_ints=True)
     except Exception as e:  # noqa
         cov.extra["fixture_schlage"] = "reference decoder: " + type(e).__name__
         return
@@ -1299,6 +1299,6 @@ def stream_fixture(db_t, add, cov):
             cls, detail = ids_class(want[iid]), f"service {iid}: linked {want[iid]} read as {got.get(iid)}"
         else:
             cls, detail = ("IndexError" if got == "crash" else str(got)), str(got)
-        add(f"linked:database-to_dict:{cls}",
+        add(f"linked:fixture-schlage-to_dict:{cls}",
             f"Pdu09Database.decode(tests/test_coap_structs.py::database_schlage_encode_plus).to_dict(): {detail}", True,
             fixture="tests.test_coap_structs.database_schlage_encode_plus", impl=str(got)[:2000], expected=str(want)[:2000])
